@@ -71,7 +71,7 @@ class FloatField(Field):
             if self.__format.lower() == "e" and self.value != 0:
                 value = "{:.{d}{format}}".format(
                     round(
-                        self.value,
+                        float(self.value),
                         self.__decimal_digits
                         - Decimal(float(self.value)).adjusted(),
                     ),
@@ -82,7 +82,7 @@ class FloatField(Field):
             else:
                 for d in range(self.__decimal_digits, -1, -1):
                     value = "{:.{d}{format}}".format(
-                        round(self.value, d),
+                        round(float(self.value), d),
                         d=d,
                         format=self.__format,
                     ).replace(".", self.__sep)
